@@ -46,7 +46,9 @@ fn known_only(proto: Proto, d: &mut Def) {
 }
 
 fn force_unknown(proto: Proto, d: &mut Def, sel: u8) {
-    if d.kind != Kind::Plain {
+    // V9 options data is decoded as raw bytes per field whatever the type; IPFIX options data
+    // goes through the typed field parser like plain data
+    if d.kind != Kind::Plain && proto == Proto::V9 {
         known_only(proto, d);
         return;
     }
